@@ -4,7 +4,8 @@ set -u
 name="$1"; id="$2"; tier="${3:-quick}"
 cd /verif
 [ -n "$(git -C /repo status --porcelain --untracked-files=no)" ] && { echo "/repo not clean"; exit 2; }
-git -C /repo apply "/verif/seeded/$name/patch.diff" || exit 2
+d=/verif/seeded/$name; [ -d "$d" ] || d=/verif/mutants/$name
+git -C /repo apply "$d/patch.diff" || exit 2
 ./run.sh "$id" "$tier" > /tmp/tryseed.$name.log 2>&1; rc=$?
 git -C /repo checkout -- .
 grep -c '^VIOLATION' /tmp/tryseed.$name.log | sed "s/^/$name $id $tier: exit=$rc VIOLATION lines=/"
